@@ -760,10 +760,14 @@ coap_ws_read(coap_session_t *session, uint8_t *data, size_t datalen) {
   }
 
   /* Get in (remaining) data */
+  if (session->ws->partial_data && session->ws->data_ofs) {
+    /* The start of this frame's data came in by an earlier call */
+    memcpy(data, session->ws->partial_data, session->ws->data_ofs);
+  }
   ret = session->sock.lfunc[COAP_LAYER_WS].l_read(session,
                                                   &data[session->ws->data_ofs],
                                                   session->ws->data_size - session->ws->data_ofs);
-  if (ret <= 0)
+  if (ret < 0)
     return ret;
   session->ws->data_ofs += ret;
   if (session->ws->data_ofs == session->ws->data_size) {
@@ -774,11 +778,28 @@ coap_ws_read(coap_session_t *session, uint8_t *data, size_t datalen) {
     session->ws->all_hdr_in = 0;
     session->ws->hdr_ofs = 0;
     session->ws->data_ofs = 0;
+    coap_free_type(COAP_STRING, session->ws->partial_data);
+    session->ws->partial_data = NULL;
     coap_log_debug("*  %s: ws:    recv %4zd bytes\n",
                    coap_session_str(session), session->ws->data_size);
     return session->ws->data_size;
   }
-  /* Need to get in all of the data */
+  /*
+   * Need to get in all of the data. The caller's buffer is not going to be
+   * the same one (or still hold the data) next time, so keep what is there.
+   */
+  if (session->ws->data_ofs) {
+    if (!session->ws->partial_data) {
+      session->ws->partial_data = coap_malloc_type(COAP_STRING,
+                                                   session->ws->data_size);
+      if (!session->ws->partial_data) {
+        session->ws->close_reason = 1011;
+        coap_ws_close(session);
+        return 0;
+      }
+    }
+    memcpy(session->ws->partial_data, data, session->ws->data_ofs);
+  }
   coap_log_debug("*  %s: Waiting Packet size %zu (got %zu)\n", coap_session_str(session),
                  session->ws->data_size, session->ws->data_ofs);
   return 0;
